@@ -19,7 +19,7 @@ Inductive attr := A_y | A_X | A_cutoff | A_fh | A_fitted (b : bool).
 Inductive guard :=
   | GXGiven | GCvGiven | GFhGiven | GYGiven | GRetInt | GUpdateParams | GYNonEmpty | GSizesGiven
   | GIwGiven | GSww | GIwLeWl | GFhOos | GArgFhOos | GFhRelative | GScitypeInfer
-  | GCutoffBeyond | GCutoffFhBeyond | GReduceTooShort | GRefit.
+  | GCutoffBeyond | GCutoffFhBeyond | GReduceTooShort | GRefit | GWlTooLong | GIwTooLong.
 
 Inductive fhsrc := FhSelf | FhArg.
 Inductive cvsrc := CvSelf | CvArg.
@@ -106,6 +106,18 @@ Definition guard_holds (g : guard) (i : call_in) (s : estate) : bool :=
       | None => false
       end
   | GRefit => c_refit i
+  (* window_length + max(fh) > len(y) / initial_window + max(fh) > len(y); a setting that is not
+     an int here (None window_length) makes the addition raise: counted as "does not fit" *)
+  | GWlTooLong =>
+      match fh_of i FhSelf, c_wl i with
+      | Ok zs, PInt w => w + zlast zs >? s_len (a_y i)
+      | _, _ => true
+      end
+  | GIwTooLong =>
+      match fh_of i FhSelf, c_iw i with
+      | Ok zs, PInt w => w + zlast zs >? s_len (a_y i)
+      | _, _ => true
+      end
   end.
 Definition path_holds (p : list (guard * bool)) (i : call_in) (s : estate) : bool :=
   forallb (fun gb => Bool.eqb (guard_holds (fst gb) i s) (snd gb)) p.
@@ -303,7 +315,7 @@ Definition chain_direct_fit : list gev :=
     ev [(GFhOos, true)] (AChk VFhKnown);
     ev [(GFhOos, true)] (AChk (VCheckWl WWindow));
     ev [(GFhOos, true); (GReduceTooShort, true)] (AChk VRaise);
-    ev [(GFhOos, true)] (AChk VFhKnown) ].
+    ev [(GFhOos, true); (GReduceTooShort, false)] (AChk VFhKnown) ].
 
 (* sktime/forecasting/compose/_reduce.py : _MultioutputReducer._fit *)
 Definition chain_multioutput_fit : list gev :=
@@ -399,7 +411,8 @@ Definition chain_evaluate : list gev :=
   [ ev [] (AChk VEvalStrategy);
     ev [] (AChk (VCheckCv CvArg true));
     ev [] (AChk (VCheckScoring ScArg));
-    ev [] (AChk (VCheckYX false true)) ].
+    ev [] (AChk (VCheckYX false true));
+    ev [] (AChk (VCheckFh FhSelf false)) ].
 
 (* sktime/forecasting/model_selection/_split.py : BaseSplitter.split *)
 Definition chain_split : list gev :=
@@ -411,9 +424,10 @@ Definition chain_window_split : list gev :=
     ev [] (AChk (VCheckWl WWindow));
     ev [] (AChk (VCheckWl WInitial));
     ev [] (AChk (VCheckFh FhSelf true));
-    ev [] (AChk VWindowsFit);
-    ev [(GIwGiven, true); (GSww, false)] (AChk VRaise);
-    ev [(GIwGiven, true); (GSww, true); (GIwLeWl, true)] (AChk VRaise) ].
+    ev [(GWlTooLong, true)] (AChk VRaise);
+    ev [(GWlTooLong, false); (GIwGiven, true); (GIwTooLong, true)] (AChk VRaise);
+    ev [(GWlTooLong, false); (GIwGiven, true); (GSww, false)] (AChk VRaise);
+    ev [(GWlTooLong, false); (GIwGiven, true); (GSww, true); (GIwLeWl, true)] (AChk VRaise) ].
 
 (* sktime/forecasting/model_selection/_split.py : BaseWindowSplitter.get_cutoffs *)
 Definition chain_window_cutoffs : list gev :=
